@@ -8,6 +8,44 @@ VERIF = os.path.dirname(os.path.dirname(os.path.abspath(__file__)))
 
 # property -> (technique, level text, level note, design ref)
 CLAIMED = {
+    'C09': (
+        'exhaustive enumeration of writer call sequences + Hypothesis '
+        'sequences; oracle = independent transition table, per-step '
+        'atomicity/append-only invariants, reference serializer on the '
+        'accepted calls',
+        'All call sequences over the 5 writer operations up to length 8 '
+        '(quick) / 10 (thorough) and over 10 valid + 13 invalid-argument '
+        'variants up to length 4 / 5 are run against the real writer and an '
+        'independent model; Hypothesis sequences up to length 40 with '
+        'generated arguments beyond. Exhaustive up to the bound only.',
+        'Trusted: dxv/spec.py (table with the two documented errata, '
+        'reference serializer). A rejected call may raise any Exception.',
+        'DESIGN.md section 5 C09'),
+    'C10': (
+        'exhaustive enumeration of section-id sequences (legal prefix + one '
+        'candidate) + random deep walks; oracle = independent transition '
+        'table',
+        'Every legal prefix up to depth 12 (quick) / 16 (thorough) followed '
+        'by each of 24 level x name ids and 8 out-of-vocabulary headers is '
+        'fed to the real reader; accepted iff the table allows it, records '
+        'must carry the right ids/levels. Exhaustive up to the depth bound; '
+        'random walks to depth 60 beyond.',
+        'Trusted: dxv/spec.py table (two documented errata). Sections carry '
+        'minimal valid content.',
+        'DESIGN.md section 5 C10'),
+    'C11': (
+        'exhaustive enumeration of header option strings over a 15-byte '
+        'alphabet + grammar-derived Hypothesis mutations; oracle = '
+        'independent full-match grammar',
+        'Every option tail over 15 representative bytes up to length 5 '
+        '(quick) / 6 (thorough) and over 8 bytes up to 7 / 8, plus '
+        'grammar-derived lines with byte edits and malformed prefixes, is '
+        'read by the real reader and compared with a full-match grammar '
+        '(accept/reject, option values, integer conversion, exception type).',
+        'Trusted: the regex in dxv/spec.py (checked at start-up against the '
+        'specification\'s own valid/invalid examples). Sliver values (1_0) '
+        'and duplicate keys accept either rendering.',
+        'DESIGN.md section 5 C11'),
     'C16': (
         'exhaustive small-scope enumeration + Hypothesis random strings; '
         'oracle = the four algebraic split/join identities and a reference '
